@@ -195,6 +195,106 @@ where
     }
 }
 
+/// ranks and partitions of element types that are ordered but not numeric (time types, strings, booleans):
+/// the same order statistics, nulls (NaT / "None" / None) ranked null and partitioned last
+fn check_ordered<T>(fam: &str, tname: &str, word: &[u8], x: &[X], mk: &dyn Fn(X) -> T, back: &dyn Fn(&T) -> X, ctx: &mut Ctx)
+where
+    T: IsNone + PartialEq + Clone,
+    T::Inner: PartialOrd,
+{
+    use tevec::prelude::*;
+    let v: Vec<T> = x.iter().map(|a| mk(*a)).collect();
+    let len = x.len();
+    let mut viol = |ctx: &mut Ctx, entry: String, params: Value, expected: String, got: String| {
+        ctx.violation(Violation { entry, finding: None, size: len * 100, case: json!({"family": fam, "word": word, "series": json_word(x), "elem": tname, "params": params}), expected, got });
+    };
+    for pct in [false, true] {
+        for rev in [false, true] {
+            let got = catch(|| -> Vec<f64> { v.vrank::<Vec<f64>, f64>(pct, rev) });
+            let want = rank(x, pct, rev);
+            let ok = match &got {
+                Outcome::Ok(g) => {
+                    ctx.eval(fam, hash_u64s(&g.iter().map(|a| a.to_bits()).collect::<Vec<_>>()));
+                    g.len() == len && Iterator::all(&mut g.iter().zip(&want), |(g, w)| exact_eq(&Cell::f(*g), &Cell::of(*w)))
+                }
+                _ => false,
+            };
+            if !ok {
+                viol(ctx, format!("vrank(pct={pct},rev={rev})"), json!({}), show_word(&want), format!("{got:?}"));
+            }
+        }
+    }
+    for k in 0..=len + 1 {
+        for sort in [false, true] {
+            for rev in [false, true] {
+                let want = partition_sorted(x, k, rev);
+                let got = catch(|| -> Vec<X> { v.vpartition(k, sort, rev).map(|t| back(&t)).collect() });
+                let ok = match &got {
+                    Outcome::Ok(g) => {
+                        ctx.eval(fam, hash_u64s(&g.iter().map(|a| a.map_or(7, |b| b.to_bits())).collect::<Vec<_>>()));
+                        g.len() == k + 1 && if sort { *g == want } else { same_multiset(g, &want) }
+                    }
+                    _ => false,
+                };
+                if !ok {
+                    viol(ctx, format!("vpartition(sort={sort},rev={rev})"), json!({"k": k}), format!("{} entries {}", k + 1, show_word(&want)), format!("{got:?}"));
+                }
+            }
+        }
+    }
+}
+
+fn check_ordered_types(fam: &str, word: &[u8], x: &[X], ctx: &mut Ctx) {
+    use tevec::prelude::unit::{Millisecond, Nanosecond};
+    use tevec::prelude::{DateTime, Time, TimeDelta};
+    ctx.fam(fam).states += 1;
+    if x.iter().any(|v| v.is_some()) {
+        ctx.nontrivial(fam, hash_bytes(word));
+    }
+    // instants on both sides of the epoch
+    const STEP: i64 = 1_000_000_007;
+    const OFF: i64 = 2_500_000_000;
+    check_ordered::<DateTime<Nanosecond>>(fam, "DateTime<ns>", word, x, &|a| a.map_or(DateTime::nat(), |v| DateTime::new(v as i64 * STEP - OFF)), &|t| if t.is_none() { None } else { Some(((t.0 + OFF) / STEP) as f64) }, ctx);
+    check_ordered::<DateTime<Millisecond>>(fam, "DateTime<ms>", word, x, &|a| a.map_or(DateTime::nat(), |v| DateTime::new(v as i64 * 7 - 10)), &|t| if t.is_none() { None } else { Some(((t.0 + 10) / 7) as f64) }, ctx);
+    if x.iter().flatten().all(|v| *v >= 0.0) {
+        check_ordered::<Time>(fam, "Time", word, x, &|a| a.map_or(<Time as IsNone>::none(), |v| Time(v as i64 * STEP)), &|t| if t.is_none() { None } else { Some((t.0 / STEP) as f64) }, ctx);
+    }
+    check_ordered::<TimeDelta>(
+        fam,
+        "TimeDelta",
+        word,
+        x,
+        &|a| a.map_or(TimeDelta::nat(), |v| TimeDelta::parse(&format!("{}s", v as i64)).unwrap()),
+        &|t| if t.is_none() { None } else { Some(t.inner.num_seconds() as f64) },
+        ctx,
+    );
+    check_ordered::<String>(fam, "String", word, x, &|a| a.map_or("None".to_string(), |v| format!("s{:03}", v as i64 + 100)), &|t| if t.is_none() { None } else { Some(t[1..].parse::<f64>().unwrap() - 100.0) }, ctx);
+    check_ordered::<Option<i64>>(fam, "Option<i64>", word, x, &|a| a.map(|v| v as i64), &|t| t.map(|v| v as f64), ctx);
+    if x.iter().flatten().all(|v| *v == 0.0 || *v == 1.0) {
+        check_ordered::<Option<bool>>(fam, "Option<bool>", word, x, &|a| a.map(|v| v == 1.0), &|t| t.map(|v| v as i64 as f64), ctx);
+    }
+}
+
+struct OrdFam {
+    alpha: Vec<X>,
+    max_len: usize,
+}
+impl TreeSys for OrdFam {
+    type Memo = ();
+    fn k(&self) -> usize {
+        self.alpha.len()
+    }
+    fn max_len(&self) -> usize {
+        self.max_len
+    }
+    fn name(&self) -> String {
+        "order-ordered-types".into()
+    }
+    fn visit(&self, w: &[u8], _p: Option<&()>, ctx: &mut Ctx) {
+        check_ordered_types("order-ordered-types", w, &decode(w, &self.alpha), ctx)
+    }
+}
+
 struct Fam {
     alpha: Vec<X>,
     max_len: usize,
@@ -262,6 +362,29 @@ fn check_long(label: &str, x: &[X], alpha: &[X], ctx: &mut Ctx) {
     check_ty::<Option<f64>>(fam, "Option<f64>", &[], x, alpha, ctx);
 }
 
+fn ord_alpha() -> Vec<X> {
+    vec![None, Some(0.0), Some(1.0), Some(3.0)]
+}
+fn nan_alpha() -> Vec<X> {
+    vec![None, Some(-1.0), Some(0.0), Some(2.0)]
+}
+/// every NaN is the same null (DESIGN 5.4): the float encodings written with the run-time NaN of x86-64
+/// (sign bit set) and with both NaN kinds mixed
+fn check_nan_kinds(w: &[u8], alpha: &[X], ctx: &mut Ctx) {
+    let fam = "order-nan-kinds";
+    let x = decode(w, alpha);
+    ctx.states += 1;
+    ctx.transitions += 1;
+    ctx.fam(fam).states += 1;
+    ctx.nontrivial(fam, hash_bytes(w));
+    for kind in [1u8, 3] {
+        with_nan_kind(kind, || {
+            check_ty::<f64>(fam, "f64", w, &x, alpha, ctx);
+            check_ty::<f32>(fam, "f32", w, &x, alpha, ctx);
+        });
+    }
+}
+
 fn main() {
     let run = Run::from_args("C12");
     let fam = Fam { alpha: vec![None, Some(0.0), Some(1.0), Some(2.0), Some(3.0)], max_len: run.pick(6, 8) };
@@ -278,6 +401,12 @@ fn main() {
             INF_MODE.with(|c| c.set(true));
             check_ty::<f64>("order-inf", "f64", &w, &x, &inf_alpha, &mut ctx);
             check_ty::<Option<f64>>("order-inf", "Option<f64>", &w, &x, &inf_alpha, &mut ctx);
+        } else if stored["case"]["family"] == "order-ordered-types" {
+            let w = syms_from_json(&stored["case"]["word"]);
+            check_ordered_types("order-ordered-types", &w, &decode(&w, &ord_alpha()), &mut ctx);
+        } else if stored["case"]["family"] == "order-nan-kinds" {
+            let w = syms_from_json(&stored["case"]["word"]);
+            check_nan_kinds(&w, &nan_alpha(), &mut ctx);
         } else if stored["case"]["family"] == "order-long" {
             let x: Vec<X> = stored["case"]["series"].as_array().map(|a| a.iter().map(|v| v.as_f64()).collect()).unwrap_or_default();
             check_long("replay", &x, &fam.alpha, &mut ctx);
@@ -301,6 +430,9 @@ fn main() {
         check_ty::<Option<f64>>("order-inf", "Option<f64>", w, &x, &inf_alpha, ctx);
         INF_MODE.with(|c| c.set(false));
     }));
+    total.merge(explore_tree(&OrdFam { alpha: ord_alpha(), max_len: run.pick(5, 6) }, run.threads));
+    let nan_words: Vec<Vec<u8>> = all_words_upto(nan_alpha().len(), run.pick(5, 6)).into_iter().filter(|w| w.contains(&0)).collect();
+    total.merge(par_items(&nan_words, run.threads, |w, ctx| check_nan_kinds(w, &nan_alpha(), ctx)));
     let long = long_series(!run.quick());
     total.merge(par_items(&long, run.threads, |(label, x), ctx| check_long(label, x, &fam.alpha, ctx)));
     let meta = Meta {
